@@ -10,6 +10,12 @@ def run(tier):
     progs += en.curated(names=["randroot", "randfirst", "mixed14"], scripted_rng=False, cxx="clang++", std="c++14", opt="-O2")
     progs += en.curated(names=["mixed14", "headless", "randroot"], manual=True)
     progs += en.curated(names=["deep3", "plans2"], payload="fat")
+    # plans with a payload type: tasks with and without payload live in the instance's own storage (plans mode: external plan
+    # edits, status reports and plan results as the deviation classes)
+    plan_progs = en.curated(names=["plannest", "planortho"], payload="int") + en.curated(names=["plannest"], payload="fat", manual=True)
+    for p in plan_progs:
+        p.args = ["--mode", "plans", "--classes", str(en.cls("STATUS", "PLANRESULT")), "--dev", "1", "--batch", "1"]
+    progs += plan_progs
     args = ["--tier", tier, "--dev", "1" if thorough else "0", "--batch", "1", "--classes", str(en.cls("REQ", "GUARD")),
             "--deadline", str(en.TD if thorough else 150)]
     if thorough:
